@@ -11,6 +11,7 @@ import (
 	ptypes "github.com/auxten/postgresql-parser/pkg/sql/types"
 	"github.com/pingcap/parser/ast"
 	"github.com/pingcap/parser/format"
+	"github.com/pingcap/parser/model"
 	"github.com/pingcap/parser/types"
 	"github.com/sunary/sqlize/utils"
 )
@@ -390,6 +391,17 @@ func hasChangePostgresType(new, old *ptypes.T) bool {
 	return new != nil && new.SQLString() != old.SQLString()
 }
 
+// sameIndexType compares index types, an unspecified type being the default one (BTREE)
+func sameIndexType(a, b model.IndexType) bool {
+	norm := func(tp model.IndexType) model.IndexType {
+		if tp == model.IndexTypeInvalid {
+			return model.IndexTypeBtree
+		}
+		return tp
+	}
+	return norm(a) == norm(b)
+}
+
 // Diff differ between 2 migrations
 func (t *Table) Diff(old Table) {
 	for i := range t.Columns {
@@ -426,7 +438,8 @@ func (t *Table) Diff(old Table) {
 	for i := range t.Indexes {
 		if j := old.getIndexIndex(t.Indexes[i].Name); t.Indexes[i].Action == MigrateAddAction &&
 			j >= 0 && old.Indexes[j].Action != MigrateNoAction {
-			if t.Indexes[i].Typ == old.Indexes[j].Typ && utils.SlideStrEqual(t.Indexes[i].Columns, old.Indexes[j].Columns) {
+			if t.Indexes[i].Typ == old.Indexes[j].Typ && utils.SlideStrEqual(t.Indexes[i].Columns, old.Indexes[j].Columns) &&
+				sameIndexType(t.Indexes[i].IndexType, old.Indexes[j].IndexType) {
 				t.Indexes[i].Action = MigrateNoAction
 			} else {
 				prev := old.Indexes[j]
